@@ -107,8 +107,17 @@ func runLBAdmin(x *X) {
 	net := newStubNet(x)
 	// hosts h1..h6 exist; names are drawn from a small set so that they repeat
 	hostOf := func(i int) string { return fmt.Sprintf("10.5.0.%d:80", i) }
+	// in half of the runs some hosts take their time: their requests are still in flight
+	// while members come and go around them
+	slowHosts := c.Intn(2, "slow-hosts") == 1
 	for i := 0; i <= 6; i++ {
-		net.add(fmt.Sprintf("host%d", i), hostOf(i), "")
+		b := net.add(fmt.Sprintf("host%d", i), hostOf(i), "")
+		if slowHosts {
+			b.delay = []time.Duration{0, 0, 40 * time.Millisecond, 2 * time.Second, 30 * time.Second}[c.Intn(5, "host-delay")]
+		}
+	}
+	if slowHosts {
+		x.Probe("reconfiguration-with-requests-in-flight")
 	}
 	// the stub registry is keyed by host; several names may point at one host
 	// weights with and without common divisors (a strategy may normalise its own copy, never what is listed)
@@ -302,6 +311,20 @@ func runLBAdmin(x *X) {
 				x.Violate("C11", "C11/traffic-not-served{status="+fmt.Sprint(r.status)+"}", "request %d returned %d during reconfiguration although a healthy backend (perm) was a member from start to the end of the request", r.id, r.status)
 			}
 		}
+		// "arriving during any change are served normally": nothing in the proxy takes (virtual)
+		// time between a request's arrival and its dispatch -- a request that waited was held
+		// up by a change (or by another request's backend)
+		invAt := map[int]time.Duration{}
+		for _, e := range evs {
+			switch e.kind {
+			case "inv":
+				invAt[e.req] = e.at
+			case "dispatch":
+				if at, ok := invAt[e.req]; ok && e.at-at > 0 {
+					x.Violate("C11", "C11/request-held-up-by-reconfiguration", "request %d arrived at t=%v and was dispatched (to %s) only at t=%v while backends were being added/removed/switched: it waited %v for something other than its own backend", e.req, at, e.backend, e.at, e.at-at)
+				}
+			}
+		}
 		// a request invoked after remove(name) returned must not reach a host that only that name pointed to
 		type addRec struct {
 			name, host string
@@ -357,6 +380,9 @@ func runLBAdmin(x *X) {
 		target := net.order[0]
 		net.mu.Lock()
 		target.mode = "s500"
+		for _, b := range net.order {
+			b.delay = 0 // (this step measures inside one ejection window: no slow answers here)
+		}
 		net.mu.Unlock()
 		for j := 0; j < 12 && !x.dead; j++ {
 			x.Do("req", func() { h.do(reqSpec{client: fmt.Sprintf("198.51.100.%d", j+1)}) }, onErr)
